@@ -36,7 +36,7 @@ def add(pid, level, text, note, technique, ref):
 import os
 if os.path.exists('/verif/sim/cmd/c08/main.go') and os.environ.get('WITH_C08','1')=='1' and os.path.getsize('/verif/sim/cmd/c08/main.go')>0:
     add("C08","fault_enumeration",
-     "Writer -> simulated storage medium -> reader: real encoders write a seeded corpus (plus grammar-generated and foreign-producer documents), the medium injects truncation, torn/lost/misdirected/duplicated sectors, bit rot, count/varint/type/ordinate field smashes, splices, token-level faults, hex text, deep nesting, and recycles its buffer after the read; every real decoder reads the result from read-only memory in a sacrificial worker under a 4 GiB address-space ceiling, an allocation meter and a logical step budget, and what it returns is validated and re-encoded. Single faults are enumerated completely for records <= 512 bytes (thorough); larger records and fault sequences are sampled.",
+     "Writer -> simulated storage medium -> reader: real encoders write a seeded corpus (plus wide documents of up to 4000 tiny members, grammar-generated and foreign-producer documents), the medium injects truncation, torn/lost/misdirected/duplicated sectors, bit rot, count/varint/type/ordinate field smashes, splices, token-level faults, hex text, deep nesting, and recycles its buffer after the read; every real decoder reads the result from read-only memory in a sacrificial worker under a 4 GiB address-space ceiling, an allocation meter and a logical step budget, and what it returns is validated and re-encoded. Single faults are enumerated completely for records <= 512 bytes (thorough); larger records and fault sequences are sampled.",
      "Trusted: the harness's structural scanners and lexer, the allocation bound constants (policy, stated in evidence with the measured worst ratio), Go runtime accounting (TotalAlloc). Coverage-guided mutation is not done.",
      "deterministic simulation of a faulty storage medium between real encoders and real decoders; complete single-fault enumeration + seeded fault sequences; sacrificial workers with RLIMIT_AS", "3.1")
 if os.path.exists('/verif/sim/cmd/c10/main.go') and os.path.getsize('/verif/sim/cmd/c10/main.go')>0:
